@@ -42,6 +42,13 @@ class CaseTimeout(BaseException):
     monitors or in the code under test cannot swallow it)."""
 
 
+class AbortShard(Exception):
+    pass
+
+
+MAX_CASE_TIMEOUTS = 3
+
+
 class Ctx:
     def __init__(self, prop, tier, seed, shard_label):
         self.prop = prop
@@ -105,6 +112,18 @@ class Ctx:
         finally:
             signal.setitimer(signal.ITIMER_REAL, 0)
             signal.signal(signal.SIGALRM, old)
+
+    def case(self, fn, *args, seconds=30.0, **kw):
+        """Runs one workload case under the watchdog; a firing makes the run inconclusive and the workload goes on."""
+        try:
+            with self.guard(seconds):
+                return fn(*args, **kw)
+        except CaseTimeout:
+            self.counters["case_timeouts"] += 1
+            self.inconclusive_because(f"watchdog ({seconds:.0f}s) fired in a case of {getattr(fn, '__name__', fn)}")
+            if self.counters["case_timeouts"] >= MAX_CASE_TIMEOUTS:
+                raise AbortShard(f"{MAX_CASE_TIMEOUTS} cases hit the watchdog; workload abandoned")
+            return None
 
     # ---- (de)serialisation -------------------------------------------------------------
     def result(self):
@@ -199,6 +218,8 @@ def run_shard(mod, prop, tier, seed, index, params):
     ctx = Ctx(prop, tier, seed, f"{tier}-{index}")
     try:
         mod.run(ctx, params)
+    except AbortShard as e:
+        ctx.inconclusive_because(f"shard {index}: {e}")
     except CaseTimeout:
         ctx.inconclusive_because(f"shard {index}: watchdog fired outside a guarded case")
     except MemoryError:
